@@ -50,6 +50,9 @@ def c03_jobs(tier, seed):
     j += shards("tsan", "w_lockfree", "c03 --kind all --d1 150 --d2 10 --rand 10", 3 if q else 4, s, seed, first=40)
     j += miri("w_lockfree", "c03 --kind racefree --off 2", 3 if q else 10, s, seed, M1)
     j += miri("w_lockfree", "c03 --kind overflow --off 2", 1 if q else 6, s, seed, M2, first=10)
+    # connection level: operation-granularity interleavings of sender and receiver against an offset-conservation model
+    j += shards("dbg", "w_cal", "c03conn --storage local", 1 if q else 3, s, seed, first=60)
+    j += shards("dbg", "w_cal", "c03conn --storage shm", 1 if q else 3, s, seed, first=70)
     return j
 
 
@@ -77,6 +80,22 @@ def c12_jobs(tier, seed):
     return j
 
 
+def ports_jobs(cmd, tier, seed, conc=None, extra=None):
+    q = tier == "quick"
+    s = 15 if q else 150
+    j = []
+    j += shards("dbg", "w_ports", "%s --svc local" % cmd, 4 if q else 5, s, seed)
+    j += shards("dbg", "w_ports", "%s --svc ipc" % cmd, 2 if q else 3, s, seed, first=10)
+    j += shards("rel", "w_ports", "%s --svc local" % cmd, 2, s, seed, first=20)
+    j += shards("asan", "w_ports", "%s --svc local" % cmd, 2 if q else 3, s, seed, first=30)
+    if conc:
+        j += shards("dbg", "w_ports", conc, 2, s, seed, first=40)
+        j += shards("tsan", "w_ports", conc, 3, s, seed, first=50)
+    if extra:
+        j += extra(q, s, seed)
+    return j
+
+
 PROPS = {
     "C09": {
         "level": "exploration",
@@ -90,8 +109,8 @@ PROPS = {
         "level": "exploration",
         "jobs": c03_jobs,
         "miri_full": miri_full,
-        "rule": "random producer/consumer programs (capacity 1-4, 1-2 threads per role handing the role over through a mutex) on IndexQueue, SafelyOverflowingIndexQueue and the generic spsc::Queue with a 24-byte self-checking element; unique increasing values; every program is executed under hook off / every depth-1 stall plan / sampled depth-2 / random delays (debug, release, TSan) and under Miri (full mode for the race-free structures and the no-lap regime, SC mode for the lapping overflow queue). Non-trivial = a push and a pop overlapped in time; distinct = distinct (program, interleaving signature, result sequence).",
-        "assumptions": COMMON_ASSUMPTIONS + ["connection-level conservation is covered by the w_cal worker when present in the job list"],
+        "rule": "random producer/consumer programs (capacity 1-4, 1-2 threads per role handing the role over through a mutex) on IndexQueue, SafelyOverflowingIndexQueue and the generic spsc::Queue with a 24-byte self-checking element; unique increasing values; every program is executed under hook off / every depth-1 stall plan / sampled depth-2 / random delays (debug, release, TSan) and under Miri (full mode for the race-free structures and the no-lap regime, SC mode for the lapping overflow queue). Connection level: random operation histories (reclaim-all, try_send, receive, release) against a model that keeps every offset in exactly one of sender-owned / submission / borrowed / completion, release must never fail, failing histories are shrunk. Non-trivial = a push and a pop overlapped in time (queues) or the completion queue reached its worst case / an overflow eviction happened (connection); distinct = distinct (program, interleaving signature, result sequence) / (config, script).",
+        "assumptions": COMMON_ASSUMPTIONS + ["connection level (zero_copy_connection over process-local and POSIX shared memory): sequential histories at operation granularity where the sender follows the port protocol (reclaim until empty, then send) and receiver operations may fall in between"],
         "floor": (2000, 200),
     },
     "C10": {
@@ -109,5 +128,33 @@ PROPS = {
         "rule": "random programs on UnrestrictedAtomic with self-checking values of 1,2,3,7,8,9,63,64,65,200 bytes and alignment 1/8/64: a writer doing copy-style and loan-style stores and handing the producer token back, an optional contender for the producer token, 1-2 readers; every program under hook off / every depth-1 stall plan / sampled depth-2 / random delays (debug, release, TSan) and Miri (full mode single-store regime, SC mode general). Non-trivial = a load overlapped a store in time; distinct = distinct (program, interleaving signature, observed versions).",
         "assumptions": COMMON_ASSUMPTIONS,
         "floor": (1000, 100),
+    },
+    "C01": {
+        "level": "exploration",
+        "jobs": lambda tier, seed: ports_jobs("c01", tier, seed, conc="c01c"),
+        "rule": "sequential: random API histories (create/drop publisher and subscriber, send_copy, loan/write/send, receive, release, update_connections, has_samples) over 1-3 publishers x 1-3 subscribers with random QoS (buffer 1-4, history 0-3, borrow 1-3, overflow on/off, loans 1-3) on local and ipc services, compared with an exact reference model after every step (debug, release, ASan); concurrent: publisher and subscriber threads on one service with random delays at hooked atomics, pairwise delivery rules over the logs (debug, TSan). Non-trivial = history with an overflow eviction, a late joiner with history, a discard on a full buffer or a documented loss, and at least one receive; distinct = distinct (config, kinds of events) / (config, received sequence).",
+        "assumptions": COMMON_ASSUMPTIONS + ["fixed-size payload [u64;4]; slices and growing segments are exercised by C15", "cross-publisher order is unspecified and not checked"],
+        "floor": (300, 50),
+    },
+    "C02": {
+        "level": "exploration",
+        "jobs": lambda tier, seed: ports_jobs("c02", tier, seed),
+        "rule": "the C01 history generator with loans kept unsent and received samples kept across further steps (also past the drop of their subscriber): every held sample and unsent loan carries a unique pattern that is re-verified after every step; at the end of every history a saturation probe drives each publisher to the worst case (all buffers full, every subscriber at its borrow limit, history full) and then takes all max_loaned_samples loans, twice. Non-trivial = a history in which two or more references (held samples, unsent loans) existed at once and the saturation probe ran; distinct = distinct (config, kinds of events).",
+        "assumptions": COMMON_ASSUMPTIONS + ["request/response payload lifetime is covered by the C11 histories (held responses are re-verified after every step)"],
+        "floor": (300, 50),
+    },
+    "C08": {
+        "level": "exploration",
+        "jobs": lambda tier, seed: ports_jobs("c08", tier, seed, extra=lambda q, s, sd: shards("dbg", "w_ports", "c08r --svc local", 2, s, sd, first=60) + shards("dbg", "w_ports", "c08r --svc ipc", 1, s, sd, first=65)),
+        "rule": "adversarial histories that stay at the limits: publish-subscribe (loans, borrows, publishers, subscribers: limit reached, limit+1 refused with the documented error and without side effect on the model, saturation probe at the end) and request-response (active requests per client, borrowed responses per connection, request buffer at the server); every error/fatal log record inside the contract is a violation. Non-trivial = a history in which at least one limit was hit and enforced; distinct = distinct (config, kinds of events).",
+        "assumptions": COMMON_ASSUMPTIONS + ["event and blackboard limits are exercised by C05/C12/C20 workloads"],
+        "floor": (300, 50),
+    },
+    "C11": {
+        "level": "exploration",
+        "jobs": lambda tier, seed: ports_jobs("c11", tier, seed),
+        "rule": "sequential request-response histories over 1-2 clients x 1-2 servers (max active requests 1-3, response buffer 1-4, borrow 1-3, overflow on/off, fire-and-forget on/off) biased to the reuse pattern 'pending response dropped while responses are queued, next request takes the channel'; unique ids in requests and responses; an exact model of every request buffer and every response channel buffer (including stale entries of dropped requests) is compared after every step; failing histories are shrunk by delta debugging. Non-trivial = a history in which a pending response was dropped with queued responses or a response was sent after the client had dropped, and responses were received; distinct = distinct (config, kinds of events).",
+        "assumptions": COMMON_ASSUMPTIONS + ["with two servers the order in which stale entries are skipped is not observable; such channel queues are judged tolerantly until drained"],
+        "floor": (300, 50),
     },
 }
